@@ -80,6 +80,18 @@ class HandlerCollection:
         # understand, so I am commenting it heavily.
         itor = Interactor(fn)
         next_selectors = []
+        seen = set()
+
+        def push(selector, acc):
+            # The same (selector, accumulator) pair may be reached through
+            # several live activations (e.g. f > g > h with g recursive);
+            # registering it once is enough, otherwise values get logged
+            # several times into the same accumulator.
+            key = (id(selector), id(acc))
+            if key not in seen:
+                seen.add(key)
+                next_selectors.append((selector, acc))
+
         for selector, acc in self.handler_pairs:
             if not selector.immediate:
                 # Immediate selectors must match directly inside the last
@@ -88,7 +100,7 @@ class HandlerCollection:
                 # ``f > x`` will also match when ``f > f > x`` does, so
                 # we can't remove it even if it matches ``f``, we have to
                 # keep it around unconditionally.
-                next_selectors.append((selector, acc))
+                push(selector, acc)
             cachekey = (fn, selector)
             capmap = _selector_fit_cache.get(cachekey)
             if capmap is None:
@@ -114,9 +126,8 @@ class HandlerCollection:
                 itor.register(acc, capmap, close_at_exit=is_template)
                 # Now that we have entered the outer interactor, the children
                 # elements of the current selector can be triggered
-                next_selectors.extend(
-                    (child, acc) for child in selector.children
-                )
+                for child in selector.children:
+                    push(child, acc)
         rval = HandlerCollection(next_selectors)
         return itor, rval
 
